@@ -820,9 +820,35 @@ def defValueIssues (env : Env) (t : RTag) : List Issue :=
           defUnits env p t (if ['#', ' '].isPrefixOf text then text.drop 2 else text)
             (if shortBase env t == defExpandKey then val_DEF_EXPAND_INVALID else val_DEF_INVALID))
 
-/-- outside the model: the placeholder tag of a used definition has neither unit nor value classes (its value
-would be checked by `check_for_invalid_extension_chars` against a tag of another string) -/
+/-- the text `validate_def_value_units` hands to `validate_units` for the placeholder tag `p` of the expansion -/
+def defValueText (p : RTag) : Str :=
+  if ['#', ' '].isPrefixOf (extension p) then (extension p).drop 2 else extension p
+
+/-- The last branch of `validate_units` for a Def value: the placeholder tag of the definition has neither unit
+nor value classes, so the substituted text goes to `check_for_invalid_extension_chars`, whose issues name the
+placeholder tag *of the definition string* (index = len(org_base_tag) + 1 + len(label) + 1 + i).  This is the
+condition under which that check is reached (`defUnits` answers `[]` there). -/
+def defExtReached (env : Env) (p : RTag) : Bool :=
+  defValueText p != ['#'] && (tagUnitClasses env p).isEmpty && (entryAttr env p).valueClasses.isEmpty
+    && !(extension p).isEmpty
+
+/-- the characters that check would report (`_check_invalid_chars`: alphanumerics, `-_/`, `.+-^ _#`, blank, `:` pass) -/
+def defExtBadChars (env : Env) (p : RTag) : List Char :=
+  (defValueText p).filter fun c =>
+    !(isAlnum env.cd c || (tagAllowedChars ++ defaultAllowedPlaceholderChars ++ [' ']).contains c || c == ':')
+
+/-- Outside the model: a Def / Def-expand tag of a definition whose placeholder tag has no unit or value class AND
+whose value holds a character the extension rule rejects — only then would the real code add issues (on a tag
+of the definition string) that `validate` does not list.  Every other use of such a definition is modelled
+exactly (the rule is reached and reports nothing). -/
 def defUnmodelled (env : Env) (t : RTag) : Bool :=
+  (shortBase env t == defKey || shortBase env t == defExpandKey) &&
+  match defPlaceholder env t with
+  | none => false
+  | some p => defExtReached env p && !(defExtBadChars env p).isEmpty
+
+/-- the wider condition used before: the rule is reached at all -/
+def defUnmodelledOld (env : Env) (t : RTag) : Bool :=
   (shortBase env t == defKey || shortBase env t == defExpandKey) &&
   match defPlaceholder env t with
   | none => false
@@ -1175,5 +1201,74 @@ def unmodelledP (env : Env) (p : Parsed) : Bool :=
       match classChars.find? (·.1 == c) with
       | some (_, ccs) => ccs.contains .unsupported
       | none => false
+
+/-- value classes whose character list the extractor could not turn into ranges -/
+def patternUnmodelled (env : Env) (t : RTag) : Bool :=
+  (entryAttr env t).valueClasses.any fun c =>
+    match classChars.find? (·.1 == c) with
+    | some (_, ccs) => ccs.contains .unsupported
+    | none => false
+
+/-- why a text is outside the model (for the evidence), `none` = inside -/
+def unmodelledWhy (env : Env) (p : Parsed) : Option String :=
+  if (tagsList p.root1).any (defUnmodelled env) then some "Def value with a rejected character, placeholder tag without classes"
+  else if (tagsList p.root1).any (patternUnmodelled env) then some "value-class character pattern not of range shape"
+  else none
+
+/-- the condition of the previous round (for the before/after count in the evidence) -/
+def unmodelledOldP (env : Env) (p : Parsed) : Bool :=
+  (tagsList p.root1).any fun t => defUnmodelledOld env t || patternUnmodelled env t
+
+/-! ### values in default units (for users of the model that need the number, e.g. `Delay/2 s`) -/
+
+/-- `HedTag.value_as_default_unit()` of a resolved tag (C11's `Units.valueAsDefault` on the tag's unit classes) -/
+def valueAsDefaultUnit (env : Env) (t : RTag) : Units.ValueResult :=
+  Units.valueAsDefault env.mods (tagUnitClasses env t) fold (extension t)
+
+/-- the delay of a `Delay/…` tag in seconds (the default unit of `timeUnits`), as an exact decimal; `none` when the
+tag is not a Delay tag, the value is absent / not convertible, or the real code would raise -/
+def delayOf (env : Env) (t : RTag) : Option Units.Dec :=
+  if shortBase env t == delayKey then
+    match valueAsDefaultUnit env t with
+    | .value d => some d
+    | _ => none
+  else none
+
+/-- the Delay tags of a top-level group with their delays (`find_top_level_tags(anchor_tags={DELAY_KEY})`) -/
+def groupDelays (env : Env) (kids : List RNode) : List (RTag × Option Units.Dec) :=
+  ((directTags kids).filter fun t => shortBase env t == delayKey).map fun t => (t, delayOf env t)
+
+/-- `value_as_default_unit()` of a Delay tag as far as the model commits itself -/
+inductive DelayVal where
+  | value (d : Units.Dec)      -- seconds, exact
+  | absent                     -- returns `None`: no or unknown unit, no value
+  | raises                     -- `float()` raises ValueError (or `default_unit.name` AttributeError)
+  | unsure                     -- the number is not a plain numeric literal but Python's `float()` is more liberal
+                               -- (surrounding blanks, `_` between digits, `inf` / `nan`): not decided here
+deriving Repr, DecidableEq, Inhabited
+
+/-- spellings `float()` may accept although the numericClass literal does not -/
+def floatLiberal (ext : Str) : Bool :=
+  ext.count ' ' ≥ 2 || ext.any fun c => c == '_' || c == 'n' || c == 'N' || c == 'i' || c == 'I' || !isAscii c
+    || c == '\t' || c == '\n' || c == '\r' || c == '\x0b' || c == '\x0c'
+
+def delayVal (env : Env) (t : RTag) : DelayVal :=
+  match valueAsDefaultUnit env t with
+  | .value d => .value d
+  | .absent => .absent
+  | .raises _ => if floatLiberal (extension t) then .unsure else .raises
+
+/-- The top-level children of `HedString(text)` as `split_delay_tags` sees them: `str(child)`, and for a group in
+which `find_top_level_tags({"delay"})` finds a Delay tag (the first tag of the group whose short base tag is
+`Delay`, case-folded) the result of its `value_as_default_unit()`.  For users of the model that close the
+`delay/` fragment (Tabular's `Oracle.items`). -/
+def delayItems (env : Env) (text : Str) : List (Str × Option DelayVal) :=
+  let root := (parse env text).root0
+  root.map fun n =>
+    (strNode env n,
+     match n with
+     | .tag _ => none
+     | .group _ kids =>
+       ((directTags kids).find? fun t => fold (shortBase env t) == fold delayKey).map (delayVal env))
 
 end HedVerif.Validate
